@@ -678,6 +678,138 @@ def run_case(case: dict) -> Outcome:
 def _strategy(sut: str):  # noqa: ANN202
     return lambda tier: st_case(tier, sut)
 
+# ----------------------------------------------------------------------------------------------
+# layer "fairness": "slow handling of one client does not block other clients".  Client A's handler is slow once
+# (a virtual sleep) while K datagrams of A pile up; when it comes back it works through its backlog with a handler
+# that never suspends by itself (record the request, yield for the next one).  A datagram of client B arrives a few
+# loop iterations after A resumed: B must not have to wait until a large part of A's backlog has been handled.
+
+
+async def _fairness_main(case: dict) -> dict:
+    from easynetwork.protocol import DatagramProtocol
+    from easynetwork.serializers.line import StringLineSerializer
+
+    loop = asyncio.get_running_loop()
+    backend = VerifBackend()
+    protocol = DatagramProtocol(StringLineSerializer())
+    A, B = ("10.0.0.1", 9001), ("10.0.0.2", 9002)
+    order: list[str] = []
+    ticks: list[int] = []
+    res: dict[str, Any] = {}
+
+    class Handler(AsyncDatagramRequestHandler[Any, Any]):
+        async def handle(self, client: Any, /):  # noqa: ANN202
+            port = client.extra(INETClientAttribute.remote_address).port
+            first = True
+            while True:
+                request = yield case["yield_timeout"]
+                order.append(request)
+                ticks.append(loop.ticks)  # type: ignore[attr-defined]
+                if port == 9001 and first:
+                    first = False
+                    await asyncio.sleep(1.0)  # slow once: the backlog builds up meanwhile
+                if case["respond"]:
+                    await client.send_packet(request)
+
+    K = case["backlog"]
+    if case["sut"] == "highlevel":
+        srv = AsyncUDPNetworkServer(None, 0, protocol, Handler(), backend)
+        up = asyncio.Event()
+        task = asyncio.create_task(srv.serve_forever(is_up_event=up))
+        await up.wait()
+        listener = backend.udp_listeners[0]
+    else:
+        listener = MemDatagramListener(backend)
+        server = AsyncDatagramServer(listener, protocol)
+        h = Handler()
+
+        class _Ctx:
+            pass
+
+        def cb(ctx: Any):  # noqa: ANN202
+            class _Client:
+                def extra(self, attr: Any) -> Any:
+                    return type("A", (), {"port": ctx.address[1]})()
+
+                async def send_packet(self, packet: Any) -> None:
+                    await ctx.server.send_packet_to(packet, ctx.address)
+
+            return h.handle(_Client())
+
+        task = asyncio.create_task(server.serve(cb))
+        await asyncio.sleep(0)
+    listener.deliver(b"a-first\n", A)
+    await asyncio.sleep(0.25)
+    for i in range(K):
+        listener.deliver(f"a{i}\n".encode(), A)
+    # A resumes at t=1.0 (+ epsilon of the initial start-up); B's datagram arrives `b_iters` loop iterations later
+
+    def fire_b(left: int) -> None:
+        if left > 0:
+            loop.call_soon(fire_b, left - 1)
+            return
+        res["a_handled_when_b_arrived"] = sum(1 for x in order if x.startswith("a"))
+        listener.deliver(b"b0\n", B)
+
+    loop.call_at(1.0 + 1e-6, fire_b, case["b_iters"])
+    await asyncio.sleep(3.0)
+    res["order"] = list(order)
+    res["ticks"] = list(ticks)
+    res["alive"] = not task.done()
+    if case["sut"] == "highlevel":
+        await srv.shutdown()
+        await asyncio.gather(task, return_exceptions=True)
+        await srv.server_close()
+    else:
+        task.cancel()
+        await asyncio.gather(task, return_exceptions=True)
+        await server.aclose()
+    return res
+
+
+def run_fairness_case(case: dict) -> Outcome:
+    logging.disable(logging.CRITICAL)
+    try:
+        r = run_virtual(_fairness_main, case, max_ticks=2_000_000)
+    except Deadlock as exc:
+        raise Violation("deadlock", f"datagram server did not make progress: {str(exc)[:600]}") from exc
+    order = r["order"]
+    K = case["backlog"]
+    if not r["alive"]:
+        raise Violation("server-stopped", "serving task ended")
+    want_a = ["a-first"] + [f"a{i}" for i in range(K)]
+    if [x for x in order if x.startswith("a")] != want_a or order.count("b0") != 1:
+        raise Violation("fifo", f"per-client order/exactly-once broken: {order[:12]}... ({len(order)} requests)")
+    # longest run of requests handled without the event loop running in between (B's datagram, a timer, a socket event:
+    # nothing else can happen during such a run, however long it is)
+    longest = cur = 0
+    prev = None
+    for tk in r["ticks"]:
+        cur = cur + 1 if tk == prev else 1
+        prev = tk
+        longest = max(longest, cur)
+    detail = {"sut": case["sut"], "backlog": K, "longest_run": longest}
+    if longest >= 30:
+        raise Violation(
+            "other-clients-blocked",
+            f"{longest} queued datagrams of one client were handled within a single event-loop iteration (backlog {K}): the backlog of "
+            "one client is worked through without ever letting the other clients run",
+            **detail,
+        )
+    return Outcome(nontrivial=K >= 40, classes=(f"sut-{case['sut']}", f"longest-run-{min(longest, 9)}"), note=f"longest run in one loop iteration: {longest}")
+
+
+@st.composite
+def st_fairness_case(draw: st.DrawFn, tier: str) -> dict:
+    return {
+        "sut": draw(st.sampled_from(["lowlevel", "highlevel"])),
+        "backlog": draw(st.sampled_from([40, 100, 300])),
+        "b_iters": draw(st.integers(0, 6)),
+        "respond": draw(st.booleans()),
+        "yield_timeout": draw(st.sampled_from([None, None, 5.0])),
+    }
+
+
 
 CHECK = Check(
     id="C16",
@@ -696,6 +828,7 @@ CHECK = Check(
     layers=[
         Layer("lowlevel", _strategy("lowlevel"), run_case, {"quick": 1200, "thorough": 8000}),
         Layer("highlevel", _strategy("highlevel"), run_case, {"quick": 1200, "thorough": 8000}),
+        Layer("fairness", st_fairness_case, run_fairness_case, {"quick": 60, "thorough": 300}),
     ],
     assumptions=[
         "the in-memory listener starts one task per datagram in arrival order (mirrors datagram/listener.py; the real listener protocol is "
